@@ -145,13 +145,12 @@ package fiber
 //@ macro cur() = last(@utils.TrimLeft)
 // Frame: forEachMediaRange itself writes nothing; what functor does beyond rewriting the bytes it is given is
 // accounted for at the call site (callsback: the write set and the `preserves` clauses of the closure passed).
-//@ func param functor assumed
-//@   modifies elems(arg0)
+//@ func param functor assumed pure
 // (heap(E_uint8) = "byte arrays": the frame check cannot carry "only header's array" through the loop.)
 //@ func forEachMediaRange
 //@   props C09 C07
 //@   callsback
-//@   modifies heap(E_uint8)
+//@   pure
 //@   atcall param functor: piece-of-header: 0 <= n && n <= len(cur())
 //@   atcall param functor: ends-at-comma-or-end: n == len(cur()) || cur()[n] == ','
 //@   atcall param functor: no-comma-inside-unquoted: !hasDQuote ==> forall(k, 0, n, cur()[k] != ',')
@@ -220,7 +219,7 @@ package fiber
 // the pooled parameter maps; in particular not the offers.
 //@ func getOffer
 //@   props C09 C07
-//@   modifies heap(E_uint8), acceptedType.params, acceptedType.spec, acceptedType.quality, acceptedType.specificity, acceptedType.order, heap(MD_string_LJuint8), heap(MV_string_LJuint8), hpSubject
+//@   modifies acceptedType.params, acceptedType.spec, acceptedType.quality, acceptedType.specificity, acceptedType.order, heap(MD_string_LJuint8), heap(MV_string_LJuint8), hpSubject
 //@   ensures no-offers-nothing: len(offers) == 0 ==> result == ""
 //@   ensures absent-header-first-offer: len(offers) > 0 && len(header) == 0 ==> result == offers[0]
 //@   ensures one-of-the-offers-or-nothing: result == "" || exists(j, 0, len(offers), result == offers[j])
@@ -243,28 +242,28 @@ package fiber
 //@ macro oneOfOrNothing(result, offers) = result == "" || exists(j, 0, len(offers), result == offers[j])
 
 //@ func (*DefaultCtx).Accepts
-//@   modifies heap(E_uint8), acceptedType.params, acceptedType.spec, acceptedType.quality, acceptedType.specificity, acceptedType.order, heap(MD_string_LJuint8), heap(MV_string_LJuint8), hpSubject
+//@   modifies acceptedType.params, acceptedType.spec, acceptedType.quality, acceptedType.specificity, acceptedType.order, heap(MD_string_LJuint8), heap(MV_string_LJuint8), hpSubject
 //@   atcall getOffer: negotiates-accept-with-media-type-matcher: str(header) == hdr(c, "Accept") && isAccepted == acceptsOfferType
 //@   ensures no-offers-nothing: len(offers) == 0 ==> result == ""
 //@   ensures absent-header-first-offer: len(offers) > 0 && hdr(c, "Accept") == "" ==> result == offers[0]
 //@   ensures one-of-the-offers-or-nothing: oneOfOrNothing(result, offers)
 
 //@ func (*DefaultCtx).AcceptsCharsets
-//@   modifies heap(E_uint8), acceptedType.params, acceptedType.spec, acceptedType.quality, acceptedType.specificity, acceptedType.order, heap(MD_string_LJuint8), heap(MV_string_LJuint8), hpSubject
+//@   modifies acceptedType.params, acceptedType.spec, acceptedType.quality, acceptedType.specificity, acceptedType.order, heap(MD_string_LJuint8), heap(MV_string_LJuint8), hpSubject
 //@   atcall getOffer: negotiates-accept-charset-with-token-matcher: str(header) == hdr(c, "Accept-Charset") && isAccepted == acceptsOffer
 //@   ensures no-offers-nothing: len(offers) == 0 ==> result == ""
 //@   ensures absent-header-first-offer: len(offers) > 0 && hdr(c, "Accept-Charset") == "" ==> result == offers[0]
 //@   ensures one-of-the-offers-or-nothing: oneOfOrNothing(result, offers)
 
 //@ func (*DefaultCtx).AcceptsEncodings
-//@   modifies heap(E_uint8), acceptedType.params, acceptedType.spec, acceptedType.quality, acceptedType.specificity, acceptedType.order, heap(MD_string_LJuint8), heap(MV_string_LJuint8), hpSubject
+//@   modifies acceptedType.params, acceptedType.spec, acceptedType.quality, acceptedType.specificity, acceptedType.order, heap(MD_string_LJuint8), heap(MV_string_LJuint8), hpSubject
 //@   atcall getOffer: negotiates-accept-encoding-with-token-matcher: str(header) == hdr(c, "Accept-Encoding") && isAccepted == acceptsOffer
 //@   ensures no-offers-nothing: len(offers) == 0 ==> result == ""
 //@   ensures absent-header-first-offer: len(offers) > 0 && hdr(c, "Accept-Encoding") == "" ==> result == offers[0]
 //@   ensures one-of-the-offers-or-nothing: oneOfOrNothing(result, offers)
 
 //@ func (*DefaultCtx).AcceptsLanguages
-//@   modifies heap(E_uint8), acceptedType.params, acceptedType.spec, acceptedType.quality, acceptedType.specificity, acceptedType.order, heap(MD_string_LJuint8), heap(MV_string_LJuint8), hpSubject
+//@   modifies acceptedType.params, acceptedType.spec, acceptedType.quality, acceptedType.specificity, acceptedType.order, heap(MD_string_LJuint8), heap(MV_string_LJuint8), hpSubject
 //@   atcall getOffer: negotiates-accept-language-with-token-matcher: str(header) == hdr(c, "Accept-Language") && isAccepted == acceptsOffer
 //@   ensures no-offers-nothing: len(offers) == 0 ==> result == ""
 //@   ensures absent-header-first-offer: len(offers) > 0 && hdr(c, "Accept-Language") == "" ==> result == offers[0]
